@@ -274,6 +274,29 @@ def strip_method(cls, name, **kw):
     return new
 
 
+def strip_class_consts(cls, consts, skip=()):
+    """Apply strip_method(cls, name, consts=consts) to every plain method of `cls` whose source contains one of
+    the literals (so that a cut such as `b"\\x00" * n` -> zero run keeps applying when a refactor moves the
+    expression into a new helper method).  Returns the list of method names recompiled."""
+    done = []
+    for name, attr in list(vars(cls).items()):
+        if name in skip or not isinstance(attr, (types.FunctionType, staticmethod, classmethod)):
+            continue
+        fn = attr.__func__ if isinstance(attr, (staticmethod, classmethod)) else attr
+        if fn.__code__.co_freevars:
+            continue
+        try:
+            tree = ast.parse(textwrap.dedent(inspect.getsource(fn)))
+        except (OSError, TypeError, SyntaxError):
+            continue
+        found = any(isinstance(n, ast.Constant) and any(type(n.value) is type(k) and n.value == k for k in consts)
+                    for n in ast.walk(tree))
+        if found:
+            strip_method(cls, name, consts=consts)
+            done.append(name)
+    return done
+
+
 def nested_function_source(outer, inner_name):
     """Source text (dedented) of a function nested inside `outer` (by name)."""
     src = textwrap.dedent(inspect.getsource(outer))
